@@ -373,6 +373,7 @@ func c05NoCrash(ctx *core.Ctx, r *core.Report) {
 		}
 		return true
 	})
+	e.subset = true
 	sites := e.sites("K1 K2 K4")
 	e.record("restriction-check-cannot-crash", sites, c13Triage)
 	if len(sites) < 3 {
